@@ -1,5 +1,5 @@
 (** C07 — property theorems only. *)
-From V Require Import Base.Util Gql.Ast Peg.Peg Gen.C07_grammar_gen C07.Builder C07.Model C07.AstEq C07.Spec C07.Proofs C07.Lexical C07.Strings C07.Numbers C07.Fuel C07.Shapes C07.Render C07.RenderValues C07.RenderArgs C07.RenderDirs.
+From V Require Import Base.Util Gql.Ast Peg.Peg Gen.C07_grammar_gen C07.Builder C07.Model C07.AstEq C07.Spec C07.Proofs C07.Lexical C07.Strings C07.Numbers C07.Fuel C07.Shapes C07.Render C07.RenderValues C07.RenderArgs C07.RenderDirs C07.RenderSel.
 From V Require Import Peg.PegShape.
 From V Require Import Peg.PegProps.
 
@@ -229,7 +229,8 @@ Print Assumptions C07_parse_render_directive_noargs.
 (** parse_render (directive lists): one or more directives, each with its own trivia; the end of the Directives
     pair lies somewhere in the trivia before the next token (pest's repetition quirk, stated existentially) *)
 Theorem C07_parse_render_directives : forall d ds k, forallb rdir_wf (d :: ds) = true -> follow_dirs (d :: ds) k ->
-  exists g2 m, ws g2 = true /\ (m + slen g2 = slen (dirs_text (d :: ds)))%N /\
+  let g2 := dirs_tail (d :: ds) in
+  exists m, ws g2 = true /\ (m + slen g2 = slen (dirs_text (d :: ds)))%N /\
     forall pre file,
     let inp := pre ++ dirs_text (d :: ds) ++ k in
     let i := slen pre in
